@@ -115,7 +115,7 @@ def w_basic(ctx, rng, i):
     n_pol = 1 if which == "lpf" else int(rng.integers(1, 3))
     noise = bool(rng.integers(2))
     shape = (2, n) if n_pol == 2 else (n,)
-    sc = 10 ** rng.uniform(-4, 1)
+    sc = 10 ** rng.uniform(-4, 1) if (i // 2) % 4 else 10 ** rng.uniform(-13, -7)     # down to fields / noise of 1e-13 (homogeneity: nothing may depend on an absolute scale)
 
     def rnd():
         a = rng.normal(0, 1, shape) * sc
